@@ -746,6 +746,9 @@ class AsyncFIXConnection:
         }
 
         for enc_msg in journal_replay_msgs:
+            if self._connection_state <= ConnectionState.DISCONNECTED_BROKEN_CONN:
+                # (also before the application is asked about the next message)
+                raise FIXConnectionError("Connection lost while resending")
             msg_seq_num = int(Journaler.find_seq_no(enc_msg))
             msg_type = enc_msg.partition(b"\x0135=")[2].partition(b"\x01")[0].decode()
 
